@@ -265,6 +265,13 @@ def err_cases(rng=None, n=0):
     """expected<E, T> over a 64-bit enum class, int and a struct error type (comp/holders/err_part.hpp)"""
     return [("ex-err", ["type err F", "run 5"])] + [("g-err-%d" % i, ["type err F", "run %d" % rng.randrange(0, 10**6)]) for i in range(n)]
 
+def alloc_cases(rng=None, n=0):
+    """construct/destruct/construct_n/destruct_n (comp/holders/alloc_part.hpp): n = 0, 1, 3, 8 and sampled"""
+    cs = [("ex-alloc", ["type alloc F"] + ["arr %d %d" % (k, 7 + k) for k in (0, 1, 3, 8)] + ["one 5", "null", "arr 0 1", "arr 0 2"])]
+    for i in range(n):
+        cs.append(("g-alloc-%d" % i, ["type alloc F"] + [rng.choice(["arr %d %d" % (rng.choice([0, 0, 1, 2, 3, 8, 17]), rng.randrange(1000)), "one %d" % rng.randrange(1000), "null"]) for _ in range(6)]))
+    return cs
+
 def thr_cases(rng=None, n=0):
     """fault injection at every element construction point (comp/holders/throw_part.hpp)"""
     cs = [("ex-thr", ["type thr F", "sweep 5 6"])]
@@ -291,6 +298,9 @@ def corpus(exp_copy_assign=True):
     cs.append(("corpus-tuple-cat-references", ["type tup F", "static"]))
     # round-7 seeds: aligned_storage() = default (manual_box no longer constant-initialised); expected() uses new T instead of T{}
     cs.append(("corpus-init-static-box-and-arena", ["type init F", "run"]))
+    # round-8 seeds: _tuple::apply(tuple&&) works on a moved copy; destruct_n(p, 0) keeps the zero-length block
+    cs.append(("corpus-tuple-apply-rvalue-identity", ["type tup F", "static"]))
+    cs.append(("corpus-destruct-n-zero", ["type alloc F", "arr 0 5", "arr 3 6", "one 7"]))
     cs.append(("corpus-thr-sweep", ["type thr F", "sweep 5 6"]))
     # seeded change caught in round 2: manual_box::initialize with T{args...} (vector<int>(3, 7) became {3, 7})
     cs.append(("corpus-il-initialize-braces", ["type il F", "fwd 3 7", "one 3"]))
